@@ -146,7 +146,7 @@ def judge_xvg(case):
             return [f"columns {list(df.columns)} != {cols}"]
         if df.shape != want.shape:
             return [f"frame shape {df.shape} != {want.shape} (rows x (1+legends))"]
-        got = df.to_numpy(dtype=float)
+        got = np.array(df.to_numpy(dtype=float))      # an independent copy: df is edited in place further down
         if not np.array_equal(got, want):
             i, j = np.argwhere(got != want)[0]
             return [f"value at row {i}, column {cols[j]!r}: {got[i, j]!r} != {want[i, j]!r} (token {case['rows'][i][j]!r})"]
@@ -156,6 +156,28 @@ def judge_xvg(case):
             if not np.array_equal(np.asarray(col, dtype=float), want[:, j + 1]):
                 msgs.append(f"single column {name!r} differs from the frame column / row order")
                 break
+        # what was read belongs to the caller: it shifts a column to its minimum, re-sorts and trims the frame in place - a
+        # later read from the same reader still returns what the file holds
+        if not msgs:
+            with quiet():
+                handed_col = er.load_single_energy_column(legends[-1])
+                try:
+                    handed_col -= 1.0 + np.abs(handed_col).max()
+                except (ValueError, TypeError):
+                    pass          # a read-only or non-array result cannot be edited: nothing to leak
+                df.sort_values(by=cols[-1], ascending=False, inplace=True, kind="stable")
+                df.iloc[:, 1] = -7.0
+                if len(cols) > 2:
+                    df.drop(columns=[cols[1]], inplace=True)
+                df2 = er.load_energy()
+                col2 = er.load_single_energy_column(legends[-1])
+            if list(df2.columns) != cols or df2.shape != want.shape or not np.array_equal(df2.to_numpy(dtype=float), want):
+                msgs.append("a second load_energy() on the same reader differs from the file after the caller edited the first frame in place")
+            elif not np.array_equal(np.asarray(col2, dtype=float), want[:, -1]):
+                msgs.append(f"a second load_single_energy_column({legends[-1]!r}) on the same reader differs from the file after the "
+                            f"caller edited the first result in place")
+            with quiet():
+                df = er.load_energy()
         csv = os.path.join(d, "energy.csv")
         df.to_csv(csv)
         with quiet():
